@@ -13,9 +13,21 @@ id=${1:?usage: run.sh <id> quick|thorough}
 tier=${2:-quick}
 OVERLAY_CHECKS=" C01 C05 C07 C10 C11 C16 C17 C20 "
 
+# The committed hooks (files tagged `verif` in /repo) name private helpers. When
+# a change to /repo leaves them uncompilable while the module itself builds,
+# everything runs without the tag (the parts that need a hook are skipped and
+# the run is not reported as exhaustive) instead of failing.
+TAGS=verif; HOOKFLAG=
+if ! (cd /repo && go build -tags verif ./... ) >/dev/null 2>&1; then
+  if (cd /repo && go build ./...) >/dev/null 2>&1; then
+    TAGS=nohooks; HOOKFLAG="-hooks=false"
+    echo "note: the verif-tagged hooks of /repo do not build against this tree; running without them" >&2
+  fi
+fi
+
 build() { # $1 = output name, rest = extra go build args
   local out=$1; shift
-  (cd harness && go build -tags verif "$@" -o "$VERIF_DIR/.work/bin/$out" ./cmd/verifcheck)
+  (cd harness && go build -tags $TAGS "$@" -o "$VERIF_DIR/.work/bin/$out" ./cmd/verifcheck)
 }
 
 need_overlay=0
@@ -28,21 +40,21 @@ fi
 if [ $need_overlay = 1 ]; then
   (cd harness && go build -o "$VERIF_DIR/.work/bin/instr" ./instr) || { echo "INTERNAL-ERROR: instrumenter build failed" >&2; exit 2; }
   # cache key: every non-test source of the module + the instrumenter + the runtime shims
-  key=$( (cd /repo && find . -name '*.go' ! -name '*_test.go' -not -path './.git/*' | sort | xargs sha256sum; sha256sum "$VERIF_DIR/.work/bin/instr" "$VERIF_DIR"/harness/vrt/*/*.go) | sha256sum | cut -c1-16)
+  key=$( (cd /repo && find . -name '*.go' ! -name '*_test.go' -not -path './.git/*' | sort | xargs sha256sum; sha256sum "$VERIF_DIR/.work/bin/instr" "$VERIF_DIR"/harness/vrt/*/*.go; echo "$TAGS") | sha256sum | cut -c1-16)
   ov="$VERIF_DIR/.work/overlay/$key"
   mode=full
   if [ ! -f "$ov/overlay.json" ]; then
     find "$VERIF_DIR/.work/overlay" -mindepth 1 -maxdepth 1 -mmin +180 -exec rm -rf {} + 2>/dev/null; mkdir -p "$ov"
-    (cd /repo && "$VERIF_DIR/.work/bin/instr" -repo /repo -out "$ov" -vrt "$VERIF_DIR/harness/vrt") >"$ov/instr.log" 2>&1 || { cat "$ov/instr.log" >&2; rm -f "$ov/overlay.json"; }
+    (cd /repo && "$VERIF_DIR/.work/bin/instr" $HOOKFLAG -repo /repo -out "$ov" -vrt "$VERIF_DIR/harness/vrt") >"$ov/instr.log" 2>&1 || { cat "$ov/instr.log" >&2; rm -f "$ov/overlay.json"; }
   fi
-  if [ -f "$ov/overlay.json" ] && build verifcheck-ov -tags "verif overlay" -overlay "$ov/overlay.json" 2>"$ov/build.log"; then
+  if [ -f "$ov/overlay.json" ] && build verifcheck-ov -tags "$TAGS overlay" -overlay "$ov/overlay.json" 2>"$ov/build.log"; then
     :
   else
     # degraded: map ranges only, real sync (never produces a violation by itself)
     [ -f "$ov/build.log" ] && head -20 "$ov/build.log" >&2
     mode=light; ovl="$ov.light"; mkdir -p "$ovl"
-    if (cd /repo && "$VERIF_DIR/.work/bin/instr" -light -repo /repo -out "$ovl" -vrt "$VERIF_DIR/harness/vrt") >"$ovl/instr.log" 2>&1 \
-       && build verifcheck-ov -tags "verif overlay" -overlay "$ovl/overlay.json"; then
+    if (cd /repo && "$VERIF_DIR/.work/bin/instr" $HOOKFLAG -light -repo /repo -out "$ovl" -vrt "$VERIF_DIR/harness/vrt") >"$ovl/instr.log" 2>&1 \
+       && build verifcheck-ov -tags "$TAGS overlay" -overlay "$ovl/overlay.json"; then
       ov=$ovl
     else
       echo "INTERNAL-ERROR: instrumented build failed (full and light)" >&2; exit 2
@@ -53,7 +65,7 @@ if [ $need_overlay = 1 ]; then
     # auxiliary free-running pass under the race detector (separate build: a
     # cooperative scheduler's hand-offs would blind it)
     mkdir -p .work/race
-    if (cd harness && go build -race -tags verif -o "$VERIF_DIR/.work/bin/verifcheck-race" ./cmd/verifcheck) 2>.work/race/build.log; then
+    if (cd harness && go build -race -tags $TAGS -o "$VERIF_DIR/.work/bin/verifcheck-race" ./cmd/verifcheck) 2>.work/race/build.log; then
       VERIF_OUT="$VERIF_DIR/.work/race" GORACE="halt_on_error=0" timeout 900 ./.work/bin/verifcheck-race C17RACE "$tier" >.work/race/run.log 2>&1
       export VERIF_RACE_LOG="$VERIF_DIR/.work/race/run.log"
     else
@@ -64,8 +76,19 @@ if [ $need_overlay = 1 ]; then
 fi
 if [ "$id" = C19 ] || { [ "$id" = replay ] && [ "${prop:-}" = C19 ]; }; then
   # C19 is a test binary: the generators under test need a *testing.T
-  (cd harness && go test -c -tags verif -vet=off -o "$VERIF_DIR/.work/bin/c19.test" ./c19test) || { echo "INTERNAL-ERROR: c19 test binary build failed" >&2; exit 2; }
+  (cd harness && go test -c -tags $TAGS -vet=off -o "$VERIF_DIR/.work/bin/c19.test" ./c19test) || { echo "INTERNAL-ERROR: c19 test binary build failed" >&2; exit 2; }
   if [ "$id" = replay ]; then export VERIF_REPLAY="$tier"; else export VERIF_TIER="$tier"; fi
+  if [ "$id" = C19 ]; then
+    # auxiliary free-running pass under the race detector: generator calls that
+    # share no argument, on separate goroutines
+    mkdir -p .work/race19
+    if (cd harness && go test -c -race -tags $TAGS -vet=off -o "$VERIF_DIR/.work/bin/c19race.test" ./c19test) 2>.work/race19/build.log; then
+      VERIF_C19_RACE=1 GORACE="halt_on_error=0" timeout 900 ./.work/bin/c19race.test -test.run '^TestC19$' -test.timeout 0 >.work/race19/run.log 2>&1
+      export VERIF_RACE_LOG="$VERIF_DIR/.work/race19/run.log"
+    else
+      echo "note: -race build unavailable, auxiliary pass skipped" >&2
+    fi
+  fi
   exec ./.work/bin/c19.test -test.run '^TestC19$' -test.timeout 0
 fi
 build verifcheck || { echo "INTERNAL-ERROR: harness build failed" >&2; exit 2; }
